@@ -264,6 +264,14 @@ func (e *Exec) evalExternal(call *ast.CallExpr, st *State, ctx *Ctx) []string {
 		return []string{"(Slice (strSplit " + arg(0) + " " + arg(1) + "))"}
 	case "strings.SplitN":
 		return []string{"(Slice (strSplitN " + arg(0) + " " + arg(1) + " " + arg(2) + "))"}
+	case "strings.Cut":
+		// before, after, found: split at the first occurrence of the separator (the definition strings.SplitN(s, sep, 2) has
+		// in the spec library: AX strSplitN2)
+		s0, sep := arg(0), arg(1)
+		i := "(str.indexof " + s0 + " " + sep + " 0)"
+		found := "(>= " + i + " 0)"
+		return []string{"(ite " + found + " (str.substr " + s0 + " 0 " + i + ") " + s0 + ")",
+			"(ite " + found + " (str.substr " + s0 + " (+ " + i + " (str.len " + sep + ")) (- (str.len " + s0 + ") (+ " + i + " (str.len " + sep + ")))) \"\")", found}
 	case "strings.Join":
 		return []string{"(strJoin (sitems " + arg(0) + ") " + arg(1) + ")"}
 	case "strings.Count":
